@@ -14,6 +14,7 @@ import (
 	"fmt"
 	"math/rand"
 	"os"
+	"os/exec"
 	"path/filepath"
 	"sort"
 	"strings"
@@ -349,6 +350,70 @@ func gitReports(c *collector, h []GitCommit) {
 	c.add("git-changelog-printed", false, items, nil)
 }
 
+// gitCliReports: a real repository of thirty files, each committed once by one of four authors on its own day (every
+// revision count is 1: every sort key of the team table is tied), and the tables `coca git -t / -a / -o` print, n times,
+// each by a process of the binary. The rows of a table are a collection; which rows are printed must not vary.
+func gitCliReports(c *collector, root string, n int) {
+	coca := os.Getenv("VERIF_COCA")
+	if coca == "" {
+		panic("harness: VERIF_COCA not set")
+	}
+	os.MkdirAll(root, 0o755)
+	git := func(env []string, args ...string) {
+		cmd := exec.Command("git", args...)
+		cmd.Dir = root
+		cmd.Env = append(os.Environ(), "GIT_CONFIG_NOSYSTEM=1", "HOME="+root, "GIT_TERMINAL_PROMPT=0", "LC_ALL=C.UTF-8")
+		cmd.Env = append(cmd.Env, env...)
+		if out, err := cmd.CombinedOutput(); err != nil {
+			panic(fmt.Sprintf("harness: git %v: %v %s", args, err, out))
+		}
+	}
+	git(nil, "init", "-q", "-b", "main", ".")
+	git(nil, "config", "commit.gpgsign", "false")
+	for i := 0; i < 30; i++ {
+		os.MkdirAll(filepath.Join(root, "src"), 0o755)
+		os.WriteFile(filepath.Join(root, "src", fmt.Sprintf("f%02d.txt", i)), []byte(fmt.Sprintf("line of file %d\n", i)), 0o644)
+		git(nil, "add", "-A")
+		ts := fmt.Sprintf("2021-%02d-%02dT10:00:00+0000", 1+i/28, 1+i%28)
+		a := gAuthors[i%len(gAuthors)]
+		git([]string{"GIT_AUTHOR_NAME=" + a, "GIT_AUTHOR_EMAIL=a@example.org", "GIT_COMMITTER_NAME=" + a, "GIT_COMMITTER_EMAIL=a@example.org",
+			"GIT_AUTHOR_DATE=" + ts, "GIT_COMMITTER_DATE=" + ts}, "commit", "-q", "-m", gSubjects[i%len(gSubjects)])
+	}
+	tmp := filepath.Join(root, ".tmp-coca")
+	os.MkdirAll(tmp, 0o755)
+	if n < 1 {
+		n = 1
+	}
+	if n > 12 {
+		n = 12
+	}
+	for run := 0; run < n; run++ {
+		for _, flag := range []string{"-t", "-a", "-o"} {
+			cmd := exec.Command(coca, "git", flag)
+			cmd.Dir = root
+			cmd.Env = append(os.Environ(), "TMPDIR="+tmp, "HOME="+root, "GIT_CONFIG_NOSYSTEM=1", "LC_ALL=C.UTF-8")
+			var so bytes.Buffer
+			cmd.Stdout = &so
+			if err := cmd.Run(); err != nil {
+				panic("coca git " + flag + " failed: " + err.Error())
+			}
+			var rows []string
+			header := false
+			for _, ln := range strings.Split(so.String(), "\n") {
+				if !strings.HasPrefix(ln, "|") || strings.HasPrefix(ln, "|--") {
+					continue
+				}
+				if !header {
+					header = true
+					continue
+				}
+				rows = append(rows, strings.Join(strings.Fields(ln), " "))
+			}
+			c.add("git-cli-table"+flag, false, rows, nil)
+		}
+	}
+}
+
 func one(raw json.RawMessage) interface{} {
 	var cs Case
 	if err := json.Unmarshal(raw, &cs); err != nil {
@@ -364,6 +429,16 @@ func one(raw json.RawMessage) interface{} {
 		}
 		defer os.RemoveAll(scratch)
 		root = filepath.Join(scratch, "proj")
+	}
+	if cs.Kind == "gitcli" {
+		gitCliReports(col, root, cs.N)
+		for _, name := range col.order {
+			r := col.reports[name]
+			r.DistinctRaw = len(col.raws[name])
+			r.Inproc = []Run{}
+			rec.Reports = append(rec.Reports, *r)
+		}
+		return rec
 	}
 	var roots []string
 	if cs.Kind == "java" {
@@ -670,6 +745,10 @@ func gen(seed int64, n int, tier string) []interface{} {
 	}
 	var out []interface{}
 	for k := 0; k < n; k++ {
+		if k%36 == 20 {
+			out = append(out, Case{Case: fmt.Sprintf("gitcli-%d-%d", seed, k), Kind: "gitcli", N: 12, History: []GitCommit{}})
+			continue
+		}
 		if k%3 == 2 {
 			if k%12 == 5 {
 				out = append(out, genGitManyChanges(r, fmt.Sprintf("gitmany-%d-%d", seed, k), runs))
